@@ -416,6 +416,31 @@ impl Scenario for Hist {
             self.setup = ops;
             return self.setup.pop();
         }
+        if self.hostile && self.sw.big_rows == 0 && self.sw.domain % 3 == 0 && !self.world.tables.contains_key("edge") && self.world.next_name > 0 {
+            // (C24) a handful of integers around i64::MAX / n: their sum lies just inside or just outside the
+            // 64-bit range, for every small n (also n that is not a power of two)
+            let n = 2 + rng.usize(8) as i64;
+            let sign = if rng.chance(1, 3) { -1i64 } else { 1 };
+            let mut ops = vec![Op::new(Kind::Other, "CREATE TABLE edge (v INTEGER, g INTEGER)".into()).table("edge")];
+            let rows: Vec<String> = (0..n)
+                .map(|i| {
+                    let v = if rng.chance(1, 9) { "NULL".to_string() } else { (sign * (i64::MAX / n + rng.range(-2, 3))).to_string() };
+                    format!("({}, {})", v, if i < 2 { 0 } else { rng.range(0, 3) })
+                })
+                .collect();
+            ops.push(Op::new(Kind::Other, format!("INSERT INTO edge VALUES {}", rows.join(", "))).table("edge"));
+            for k in [0, 1, 2, 0] {
+                let w = if k == 0 { String::new() } else { format!(" WHERE g >= {}", k) };
+                let mut op = Op::new(Kind::Hostile, format!("SELECT SUM(v), COUNT(*) FROM edge{}", w));
+                op.fault = "hostile".into();
+                op.name = Some(format!("exact_sum:{}", k));
+                ops.push(op);
+            }
+            self.world.tables.insert("edge".into(), TableDef { name: "edge".into(), cols: vec![ColDef { name: "v".into(), ty: Ty::Int, not_null: false }, ColDef { name: "g".into(), ty: Ty::Int, not_null: false }], ..Default::default() });
+            ops.reverse();
+            self.setup = ops;
+            return self.setup.pop();
+        }
         if self.dates && self.world.next_name > 0 && rng.chance(1, 7) {
             if self.next_date_key == 0 {
                 self.next_date_key = 1;
@@ -760,6 +785,41 @@ impl Scenario for Hist {
             cx.eval("c24.returns");
             if let Out::Panic(p) = &out {
                 return cx.violation("c24.panic", format!("statement panicked: {} :: {}", op.sql, p));
+            }
+            if let Some(k) = op.name.as_deref().and_then(|n| n.strip_prefix("exact_sum:")).and_then(|k| k.parse::<i64>().ok()) {
+                // the harness adds the stored values itself (in 128 bits): the answer is that sum, or NULL / an
+                // error when it does not fit into 64 bits - never a wrapped value
+                if let (Some(rows), Out::Rows(res)) = (table_rows(&self.sut, "edge"), &out) {
+                    let as_int = |v: &SqlValue| match v {
+                        SqlValue::Integer(i) | SqlValue::Bigint(i) => Some(*i),
+                        SqlValue::Smallint(i) => Some(*i as i64),
+                        _ => None,
+                    };
+                    let pass: Vec<&Vec<SqlValue>> = rows.iter().filter(|r| r.len() == 2 && as_int(&r[1]).map_or(false, |g| g >= k)).collect();
+                    let vals: Vec<i128> = pass.iter().filter_map(|r| as_int(&r[0])).map(|v| v as i128).collect();
+                    let total: i128 = vals.iter().sum();
+                    cx.eval("c24.exact_sum");
+                    let got = res.first().map(|r| vnorm_row(r)).unwrap_or_default();
+                    let want_count = format!("I{}", pass.len());
+                    let ok = if res.len() != 1 || res[0].len() != 2 || vnorm(&res[0][1]) != want_count {
+                        false
+                    } else if vals.is_empty() {
+                        res[0][0] == SqlValue::Null
+                    } else if total >= i64::MIN as i128 && total <= i64::MAX as i128 {
+                        // known finding C03-columnar-f64-sum: the fast path hands the (exactly computed) sum out
+                        // as a Double; with its guard the correctly rounded value is accepted, nothing else
+                        let rounded = self.sw.guard("c03_no_ints_beyond_2_53") && matches!(&res[0][0], SqlValue::Double(f) if *f == total as f64);
+                        vnorm(&res[0][0]) == format!("I{}", total) || rounded
+                    } else {
+                        res[0][0] == SqlValue::Null
+                    };
+                    if ok && !vals.is_empty() {
+                        cx.reach(if total >= i64::MIN as i128 && total <= i64::MAX as i128 { "edge_sum_fits" } else { "edge_sum_overflows" });
+                    }
+                    if !ok {
+                        return cx.violation("c24.exact_sum", format!("{} returned [{}] over values {:?}: the exact sum is {} ({} rows pass the filter)", op.sql, got, vals, total, pass.len()));
+                    }
+                }
             }
             return Step::Continue;
         }
